@@ -33,3 +33,35 @@ Theorem C09_source_export_is_claim_revoked : forall (h : holder) (c : option (st
   V2.Export_IsClaimRevoked (claim_iat c) (claim_sub c) (claim_nil c) (h_map h) = is_claim_revoked h c.
 Proof. exact src_export_is_claim_revoked. Qed.
 Print Assumptions C09_source_export_is_claim_revoked.
+
+(* the wrappers that store (AccountClaims / Export RevokeAt, Revoke, ClearRevocation): the revocation map is a data field
+   of the abstract receiver, carried as a variable that starts as the field's value on entry and is handed back.  RevokeAt
+   makes the map if it is nil and is the list's Revoke at exactly the time handed in (no default, no rounding, no other
+   entry touched); Revoke is RevokeAt at what time.Now() reads; ClearRevocation is the list's own. *)
+Theorem C09_source_account_revoke_at : forall (h : holder) (k : string) (t : Z),
+  Some (V2.AccountClaims_RevokeAt (h_map h) (h_isnil h) k t) = h_revoke_at k t h.
+Proof. exact src_acct_revoke_at. Qed.
+Print Assumptions C09_source_account_revoke_at.
+Theorem C09_source_export_revoke_at : forall (h : holder) (k : string) (t : Z),
+  Some (V2.Export_RevokeAt (h_map h) (h_isnil h) k t) = h_revoke_at k t h.
+Proof. exact src_export_revoke_at. Qed.
+Print Assumptions C09_source_export_revoke_at.
+Theorem C09_source_account_revoke : forall (h : holder) (now : Z) (k : string),
+  Some (V2.AccountClaims_Revoke (h_map h) (h_isnil h) now k) = h_revoke_at k now h.
+Proof. exact src_acct_revoke. Qed.
+Print Assumptions C09_source_account_revoke.
+Theorem C09_source_export_revoke : forall (h : holder) (now : Z) (k : string),
+  Some (V2.Export_Revoke (h_map h) (h_isnil h) now k) = h_revoke_at k now h.
+Proof. exact src_export_revoke. Qed.
+Print Assumptions C09_source_export_revoke.
+Theorem C09_source_account_clear : forall (h : holder) (k : string), V2.AccountClaims_ClearRevocation (h_map h) k = clear k (h_map h).
+Proof. exact src_acct_clear. Qed.
+Print Assumptions C09_source_account_clear.
+Theorem C09_source_export_clear : forall (h : holder) (k : string), V2.Export_ClearRevocation (h_map h) k = clear k (h_map h).
+Proof. exact src_export_clear. Qed.
+Print Assumptions C09_source_export_clear.
+Theorem C09_source_revoke_consults :
+  V2.AccountClaims_Revoke_consults = ["go_time_Now"]%list /\ V2.Export_Revoke_consults = ["go_time_Now"]%list /\
+  V2.AccountClaims_RevokeAt_consults = []%list /\ V2.Export_RevokeAt_consults = []%list.
+Proof. repeat split; reflexivity. Qed.
+Print Assumptions C09_source_revoke_consults.
